@@ -383,28 +383,28 @@ def hash_fn_owned(name, ensures, loops):
 
 
 STATIC_FNS = [
-    hash_fn_static("hash_sdm_type", "r == h_ty(state, view_s(sdmty))   // @obl:C16.V.hash.static.hash_sdm_type", [
+    hash_fn_static("hash_sdm_type", "r == h_ty(\u00a7p0\u00a7, view_s(\u00a7p1\u00a7))   // @obl:C16.V.hash.static.hash_sdm_type", [
         ("ts", "h_tys", "view_s_tys", "lem_view_len_s_tys", "view_s(ts@[j])"),
         ("variants", "h_vars", "view_s_vars", "lem_view_len_s_vars", "view_s_var(variants@[j])")]),
-    hash_fn_static("hash_struct", "r == h_data(state, view_s_data(data), %s, %s, %s, %s)   // @obl:C16.V.hash.static.hash_struct" % (h(S_UNIT), h(S_NEWTYPE), h(S_TUPLE), h(S_STRUCT)), [
+    hash_fn_static("hash_struct", "r == h_data(\u00a7p0\u00a7, view_s_data(\u00a7p2\u00a7), %s, %s, %s, %s)   // @obl:C16.V.hash.static.hash_struct" % (h(S_UNIT), h(S_NEWTYPE), h(S_TUPLE), h(S_STRUCT)), [
         ("dmts", "h_tys", "view_s_tys", "lem_view_len_s_tys", "view_s(dmts@[j])"),
         ("nfs", "h_nfs", "view_s_nfs", "lem_view_len_s_nfs", "view_s_nf(nfs@[j])")]),
-    hash_fn_static("hash_variant", "r == h_var(state, view_s_var(nt))   // @obl:C16.V.hash.static.hash_variant", [
+    hash_fn_static("hash_variant", "r == h_var(\u00a7p0\u00a7, view_s_var(\u00a7p1\u00a7))   // @obl:C16.V.hash.static.hash_variant", [
         ("ts", "h_tys", "view_s_tys", "lem_view_len_s_tys", "view_s(ts@[j])"),
         ("fields", "h_nfs", "view_s_nfs", "lem_view_len_s_nfs", "view_s_nf(fields@[j])")]),
-    hash_fn_static("hash_named_field", "r == h_nf(state, view_s_nf(nt))   // @obl:C16.V.hash.static.hash_named_field", []),
+    hash_fn_static("hash_named_field", "r == h_nf(\u00a7p0\u00a7, view_s_nf(\u00a7p1\u00a7))   // @obl:C16.V.hash.static.hash_named_field", []),
 ]
 OWNED_FNS = [
-    hash_fn_owned("hash_sdm_type_owned", "r == h_ty(state, view_o(sdmty))   // @obl:C16.V.hash.owned.hash_sdm_type_owned", [
+    hash_fn_owned("hash_sdm_type_owned", "r == h_ty(\u00a7p0\u00a7, view_o(\u00a7p1\u00a7))   // @obl:C16.V.hash.owned.hash_sdm_type_owned", [
         ("ts", "h_tys", "view_o_tys", "lem_view_len_o_tys", "view_o(&ts@[j])"),
         ("variants", "h_vars", "view_o_vars", "lem_view_len_o_vars", "view_o_var(&variants@[j])")]),
-    hash_fn_owned("hash_struct", "r == h_data(state, view_o_data(data), %s, %s, %s, %s)   // @obl:C16.V.hash.owned.hash_struct" % (h(S_UNIT), h(S_NEWTYPE), h(S_TUPLE), h(S_STRUCT)), [
+    hash_fn_owned("hash_struct", "r == h_data(\u00a7p0\u00a7, view_o_data(\u00a7p2\u00a7), %s, %s, %s, %s)   // @obl:C16.V.hash.owned.hash_struct" % (h(S_UNIT), h(S_NEWTYPE), h(S_TUPLE), h(S_STRUCT)), [
         ("dmts", "h_tys", "view_o_tys", "lem_view_len_o_tys", "view_o(&dmts@[j])"),
         ("nfs", "h_nfs", "view_o_nfs", "lem_view_len_o_nfs", "view_o_nf(&nfs@[j])")]),
-    hash_fn_owned("hash_variant", "r == h_var(state, view_o_var(nt))   // @obl:C16.V.hash.owned.hash_variant", [
+    hash_fn_owned("hash_variant", "r == h_var(\u00a7p0\u00a7, view_o_var(\u00a7p1\u00a7))   // @obl:C16.V.hash.owned.hash_variant", [
         ("ts", "h_tys", "view_o_tys", "lem_view_len_o_tys", "view_o(&ts@[j])"),
         ("fields", "h_nfs", "view_o_nfs", "lem_view_len_o_nfs", "view_o_nf(&fields@[j])")]),
-    hash_fn_owned("hash_named_field", "r == h_nf(state, view_o_nf(nt))   // @obl:C16.V.hash.owned.hash_named_field", []),
+    hash_fn_owned("hash_named_field", "r == h_nf(\u00a7p0\u00a7, view_o_nf(\u00a7p1\u00a7))   // @obl:C16.V.hash.owned.hash_named_field", []),
 ]
 
 UNIT = dict(
@@ -440,28 +440,28 @@ pub mod fnv1a64 {
 """),
         dict(kind="fn", file=F, within=[r"^mod fnv1a64$"], name="hash_update", qual="postcard_schema::key::hash::fnv1a64::hash_update",
              expect_loops=1,
-             sig="""        ensures r == fnv(state, bytes@),   // @obl:C16.V.fnv.hash_update
-            bytes@.len() == 1 ==> r == fnv_step(state, bytes@[0]),   // @obl:C16.V.fnv.hash_update""",
-             inserts=[("loop:0:before", "let ghost s0 = \u00a7acc\u00a7; let ghost state0 = state;"),
+             sig="""        ensures r == fnv(\u00a7p0\u00a7, \u00a7p1\u00a7@),   // @obl:C16.V.fnv.hash_update
+            \u00a7p1\u00a7@.len() == 1 ==> r == fnv_step(\u00a7p0\u00a7, \u00a7p1\u00a7@[0]),   // @obl:C16.V.fnv.hash_update""",
+             inserts=[("loop:0:before", "let ghost s0 = \u00a7acc\u00a7;"),
                       ("loop:0:end", "proof { reveal(fnv_step); assert(\u00a7seq\u00a7@.subrange(0, \u00a7ctr\u00a7 as int).drop_last() =~= \u00a7seq\u00a7@.subrange(0, \u00a7ctr\u00a7 as int - 1)); }"),
                       ("loop:0:after", "proof { assert(\u00a7seq\u00a7@.subrange(0, \u00a7ctr\u00a7 as int) =~= \u00a7seq\u00a7@); if \u00a7seq\u00a7@.len() == 1 { fnv1(s0, \u00a7seq\u00a7@[0]); assert(\u00a7seq\u00a7@ =~= seq![\u00a7seq\u00a7@[0]]); } }")],
              loops={0: """            invariant \u00a7ctr\u00a7 <= \u00a7seq\u00a7.len(), \u00a7acc\u00a7 == fnv(s0, \u00a7seq\u00a7@.subrange(0, \u00a7ctr\u00a7 as int)), Fnv1a64Hasher::PRIME == 0x0000_0100_0000_01b3u64,
             decreases \u00a7seq\u00a7.len() - \u00a7ctr\u00a7"""},
              obls=["C16.V.fnv.hash_update"]),
         dict(kind="fn", file=F, within=[r"^mod fnv1a64$"], name="hash_update_str", qual="postcard_schema::key::hash::fnv1a64::hash_update_str",
-             sig="        ensures r == fnv(state, s.spec_bytes())   // @obl:C16.V.fnv.hash_update_str", obls=["C16.V.fnv.hash_update_str"]),
+             sig="        ensures r == fnv(\u00a7p0\u00a7, \u00a7p1\u00a7.spec_bytes())   // @obl:C16.V.fnv.hash_update_str", obls=["C16.V.fnv.hash_update_str"]),
     ] + STATIC_FNS + [
         dict(kind="fn", file=F, within=[r"^mod fnv1a64$"], name="hash_ty_path", qual="postcard_schema::key::hash::fnv1a64::hash_ty_path",
              rewrites=[(r"\.to_le_bytes\(\)", "", 1, 1), (r"-> \[u8; 8\]", "-> u64", 1, 1),   # D3'
                        (r"T::SCHEMA", "schema_of::<T>()", 1, 1),                                 # D10: trait associated const
                        (r"<T: Schema \+ \?Sized>", "<T: ?Sized>", 1, 1)],
-             sig="        ensures r == h_ty(fnv(FNV_BASIS(), path.spec_bytes()), view_s(spec_schema_of::<T>()))   // @obl:C16.V.hash.static.hash_ty_path",
+             sig="        ensures r == h_ty(fnv(FNV_BASIS(), \u00a7p0\u00a7.spec_bytes()), view_s(spec_schema_of::<T>()))   // @obl:C16.V.hash.static.hash_ty_path",
              obls=["C16.V.hash.static.hash_ty_path"]),
         dict(kind="raw", name="<mod-static-close>", text="}\n"),
         dict(kind="raw", name="<mod-owned-open>", text="pub mod fnv1a64_owned {\n    use super::*;\n    use super::fnv1a64::*;\n"),
         dict(kind="fn", file=F, within=[r"^mod fnv1a64_owned$"], name="hash_ty_path_owned", qual="postcard_schema::key::hash::fnv1a64_owned::hash_ty_path_owned",
              rewrites=[(r"\.to_le_bytes\(\)", "", 1, 1), (r"-> \[u8; 8\]", "-> u64", 1, 1)],   # D3': the final to_le_bytes() is dropped (checked by Kani C16.K.le_digest)
-             sig="        ensures r == h_ty(fnv(FNV_BASIS(), path.spec_bytes()), view_o(ty))   // @obl:C16.V.hash.owned.hash_ty_path_owned",
+             sig="        ensures r == h_ty(fnv(FNV_BASIS(), \u00a7p0\u00a7.spec_bytes()), view_o(\u00a7p1\u00a7))   // @obl:C16.V.hash.owned.hash_ty_path_owned",
              obls=["C16.V.hash.owned.hash_ty_path_owned"]),
     ] + OWNED_FNS + [
         dict(kind="raw", name="<mod-owned-close>", text="}\n"),
